@@ -141,6 +141,35 @@ def gen_cases(ctx, rng, total):
         yield key, bound, s, n
 
 
+def history_cases(ctx, rng, count=None):
+    """determinism across a HISTORY of calls on one instance: every call must return what a fresh PRF object returns for the
+    same (input, count), whatever was asked before (same input with larger / smaller / zero count, other inputs in between)"""
+    for _ in range(count or ctx.scale(60, 600)):
+        key = bytes(rng.getrandbits(8) for _ in range(16))
+        bound = rng.choice([2, 3, 7, 2 ** 7, 2 ** 8, 2 ** 15, 101, 2 ** 31 - 1, 2 ** 61 - 1, 2 ** 64, 2 ** 127 + 1])
+        prf = thresha.PRF(key, bound)
+        inputs = [bytes(rng.getrandbits(8) for _ in range(rng.choice([0, 1, 8]))) for _ in range(2)]
+        seq = []
+        for _ in range(rng.randrange(2, 7)):
+            seq.append((rng.choice(inputs) if rng.random() < 0.8 else inputs[0], rng.choice([None, 0, 1, 2, 3, 8, 8, 5, 1])))
+        hist = []
+        for s_, n in seq:
+            st, x = exc_name(prf, s_, n)
+            stf, xf = exc_name(thresha.PRF(bytes(key), bound), bytes(s_), n)
+            hist.append([s_.hex(), n])
+            ctx.case(('prf-history', key, bound, tuple(map(tuple, hist))), nontrivial=len(hist) > 1)
+            ctx.count('history-call')
+            a = x if st != 'ok' else (flat(x) if isinstance(x, list) else [int(x)])
+            b = xf if stf != 'ok' else (flat(xf) if isinstance(xf, list) else [int(xf)])
+            shape_ok = (st != 'ok') or (isinstance(x, list) == (n is not None)) and (n is None or len(x) == n)
+            if a != b or not shape_ok:
+                ctx.violation('PRF: the result of a call depends on the calls made before on the same object '
+                              '(or has the wrong number of values)',
+                              {'kind': 'prf-history', 'key': key.hex(), 'bound': bound, 'calls': hist,
+                               'expected': b if isinstance(b, str) else b[:10], 'observed': a if isinstance(a, str) else a[:10]})
+                return
+
+
 def run(ctx):
     rng = ctx.rng
     lines, impl, meta = [], [], []
@@ -151,6 +180,7 @@ def run(ctx):
     for bound in BOUNDS:
         for n in [None, 0, 1, 7] + (SHAPES if np is not None else []):
             one_case(ctx, key, bound, b'', n, lines, impl, meta)
+    history_cases(ctx, rng)
     # bound 0 (error behaviour, correspondence only)
     prf0 = thresha.PRF(key, 0)
     for n, tok in ((None, 'N'), (1, '1'), (0, '0')):
@@ -175,6 +205,17 @@ def search(ctx):
 
 
 def replay(ctx, data):
+    if data.get('kind') == 'prf-history':
+        key, bound = bytes.fromhex(data['key']), int(data['bound'])
+        prf = thresha.PRF(key, bound)
+        for s_, n in data['calls']:
+            st, x = exc_name(prf, bytes.fromhex(s_), n)
+            stf, xf = exc_name(thresha.PRF(key, bound), bytes.fromhex(s_), n)
+            a = x if st != 'ok' else (flat(x) if isinstance(x, list) else [int(x)])
+            b = xf if stf != 'ok' else (flat(xf) if isinstance(xf, list) else [int(xf)])
+            if a != b:
+                return False, f'call ({s_}, {n}) after {data["calls"]} returns {str(a)[:80]}, a fresh object returns {str(b)[:80]}'
+        return True, 'ok: results independent of the call history'
     if data.get('kind') != 'prf':
         return True, 'nothing to re-execute'
     n = data['n']
